@@ -55,6 +55,15 @@ var Lengths = []int{-1, 1, 2047, 2048, 2049, 4096, 32767, 32768, 32769, 65537}
 
 const neverKey = "never-written"
 
+// OddKeys: unusual but valid (UTF-8) keys.
+var OddKeys = []string{
+	"a/b", "/", "//", "../x", ".", "..", " ", "a b", "a ", " a", "\t", "\n", "a\nb", "\x00", "a\x00b", "\x7f",
+	"%", "%d%s", "*", "?", "\\", "'", "\"", "file/", "content/", "tx/", "file/00000000-0000-0000-0000-000000000000",
+	"A", "aa", "é", "e\u0301", "日本語", "\U0001D11E", "\uFEFFbom", "\u202Ertl",
+	strings.Repeat("a", 255), strings.Repeat("a", 256), strings.Repeat("k", 4096), strings.Repeat("k", 65535),
+	strings.Repeat("k", 65536), strings.Repeat("ü", 35000),
+}
+
 func spec() dbh.Spec { return dbh.Spec{Roots: 1, MaxDirCount: 100, Workers: 1} }
 
 func init() {
@@ -74,6 +83,37 @@ func init() {
 					seq.Op{Kind: seq.Delete, Actor: model.Auto, Key: k})
 			}
 			out = append(out, seq.Op{Kind: seq.Set, Actor: model.Auto, Key: ""})
+			return out
+		}
+		return f
+	})
+
+	// kv-keys: the key dimension of C01 — every history starts by writing one key of a table of unusual
+	// valid-UTF-8 keys (separators, dots, blanks, control characters, NUL, format verbs, the store's own
+	// record prefixes, multi-byte runes, case and prefix neighbours, lengths up to 70000 bytes), then
+	// continues over that key and its neighbour "a" with writes, deletions and reopenings; all table keys
+	// are read after every step.
+	seq.Register("kv-keys", func(p string) *seq.Family {
+		obs := append(append([]string{}, OddKeys...), "a", neverKey)
+		f := &seq.Family{Opt: seq.Options{Slots: 0, ObsKeys: obs, Spec: spec(), ReaderObs: true}}
+		f.Next = func(_ *model.Model, hist []seq.Op, left int) []seq.Op {
+			var out []seq.Op
+			if len(hist) == 0 {
+				for _, k := range OddKeys {
+					out = append(out, seq.Op{Kind: seq.Set, Actor: model.Auto, Key: k})
+				}
+				return out
+			}
+			k := hist[0].Key
+			out = append(out,
+				seq.Op{Kind: seq.SetReader, Actor: model.Auto, Key: k},
+				seq.Op{Kind: seq.Create, Actor: model.Auto, Key: k, Split: []int{3, 5}},
+				seq.Op{Kind: seq.Delete, Actor: model.Auto, Key: k},
+				seq.Op{Kind: seq.Set, Actor: model.Auto, Key: "a"},
+				seq.Op{Kind: seq.Delete, Actor: model.Auto, Key: "a"})
+			if hist[len(hist)-1].Kind != seq.Reopen {
+				out = append(out, seq.Op{Kind: seq.Reopen, Actor: model.Auto})
+			}
 			return out
 		}
 		return f
@@ -228,6 +268,11 @@ func init() {
 				}
 				if a >= 0 {
 					out = append(out, seq.Op{Kind: seq.Commit, Actor: a}, seq.Op{Kind: seq.Rollback, Actor: a})
+				} else {
+					// ending a transaction no Begin returned: a never-issued id, the all-zero id, no id at all
+					for v := 0; v < 3; v++ {
+						out = append(out, seq.Op{Kind: seq.Commit, Actor: a, IDVar: v}, seq.Op{Kind: seq.Rollback, Actor: a, IDVar: v})
+					}
 				}
 			}
 			for s := range md.Txs {
@@ -312,7 +357,7 @@ func grpcVariant(name string, gopen func(dbh.Spec) (*dbh.Inst, error), unknownCt
 
 // RegisterGRPC is called by the gRPC tier with its opener (avoids an import cycle).
 func RegisterGRPC(gopen func(dbh.Spec) (*dbh.Inst, error), unknownCtx func(context.Context, string) context.Context) {
-	for _, n := range []string{"kv", "kv-len", "iso", "late"} {
+	for _, n := range []string{"kv", "kv-len", "kv-keys", "iso", "late"} {
 		grpcVariant(n, gopen, unknownCtx)
 	}
 }
